@@ -56,6 +56,7 @@ fn main() {
     match args[1].as_str() {
         "ops" => {
             let prop = &args[2];
+            start_watchdog(prop.clone());
             let thorough = args[3] == "thorough";
             let seed: u64 = args[4].parse().unwrap_or(0);
             let mut served = false;
